@@ -69,6 +69,9 @@ def register_wf_axioms(repo):
         return [a for n, a in axs if n in names]
 
 
+_OPEN = 0      # undischarged obligations seen so far in this process (one verification task per process)
+
+
 class Obligation:
     def __init__(self, name, kind_, pc, goal, note="", inputs=None):
         self.name, self.kind, self.pc, self.goal, self.note = name, kind_, list(pc), goal, note
@@ -80,6 +83,82 @@ class Obligation:
         self.reason = ""
 
     def check(self, timeout_ms=10000, seed=0):
+        """Decide the obligation in a forked child with a hard wall-clock limit: z3's sequence solver does
+        not always honour its own timeout, and a check must terminate.  A child that has to be killed
+        leaves the obligation `unknown` (never a violation)."""
+        import os
+        self.model_inputs = None
+        global _OPEN
+        fast = _OPEN >= 3      # the task already has undischarged obligations: one attempt each for the rest
+        if os.environ.get("PYVC_FORK_CHECK", "1") == "0":
+            self._check_inline(timeout_ms, seed, fast)
+            if self.status == "failed" and self.model is not None and hasattr(self, "inputs_from_model"):
+                try:
+                    self.model_inputs = self.inputs_from_model(self.model)
+                except Exception:      # noqa
+                    pass
+            if self.status != "discharged":
+                _OPEN += 1
+            return self.status
+        import json as _json
+        import select
+        import time as _time
+        hard = 10.0 * timeout_ms / 1000.0 + 15.0
+        rd, wr = os.pipe()
+        t0 = _time.time()
+        pid = os.fork()
+        if pid == 0:
+            try:
+                os.close(rd)
+                self._check_inline(timeout_ms, seed, fast)
+                m = None
+                if self.status == "failed" and self.model is not None and hasattr(self, "inputs_from_model"):
+                    try:
+                        m = self.inputs_from_model(self.model)
+                    except Exception:      # noqa
+                        m = None
+                data = _json.dumps({"status": self.status, "solver": self.solver, "time_s": self.time_s, "reason": self.reason, "model_inputs": m}, default=str)
+                os.write(wr, data.encode())
+            except BaseException as e:      # noqa
+                try:
+                    os.write(wr, _json.dumps({"status": "unknown", "solver": "z3", "time_s": 0.0, "reason": "checker error: %s" % e, "model_inputs": None}).encode())
+                except Exception:      # noqa
+                    pass
+            finally:
+                os._exit(0)
+        os.close(wr)
+        buf = b""
+        while True:
+            left = hard - (_time.time() - t0)
+            if left <= 0:
+                break
+            r, _, _ = select.select([rd], [], [], min(left, 1.0))
+            if r:
+                chunk = os.read(rd, 1 << 16)
+                if not chunk:
+                    break
+                buf += chunk
+        os.close(rd)
+        try:
+            done, _ = os.waitpid(pid, os.WNOHANG)
+            if not done:
+                os.kill(pid, 9)
+                os.waitpid(pid, 0)
+        except Exception:      # noqa
+            pass
+        try:
+            d = _json.loads(buf.decode())
+        except Exception:      # noqa
+            d = {"status": "unknown", "solver": "z3", "time_s": _time.time() - t0, "model_inputs": None,
+                 "reason": "solver did not return within the hard limit of %d s (stopped)" % hard}
+        self.status, self.solver, self.time_s, self.reason = d["status"], d["solver"], d["time_s"], d.get("reason") or ""
+        self.model = None
+        self.model_inputs = d.get("model_inputs")
+        if self.status != "discharged":
+            _OPEN += 1
+        return self.status
+
+    def _check_inline(self, timeout_ms=10000, seed=0, fast=False):
         # equivalences between bounded universal quantifications: try the pointwise strengthening first
         alt = getattr(self, "alt_goal", None)
         if alt is not None:
@@ -94,9 +173,9 @@ class Obligation:
             if r5 == "unsat":
                 self.solver, self.time_s, self.status = "cvc5", 0.0, "discharged"
                 return self.status
-        res = smt.check_sat(fs, timeout_ms=timeout_ms, seed=seed)
+        res = smt.check_sat(fs, timeout_ms=timeout_ms, seed=seed, use_cvc5=not fast)
         tries = 0
-        while res.status == "unknown" and tries < 2:
+        while res.status == "unknown" and tries < 2 and not fast:
             # solver instability guard: a different seed and a larger budget before giving up
             tries += 1
             res = smt.check_sat(fs, timeout_ms=timeout_ms * 2, seed=seed + 7919 * tries, use_cvc5=False)
